@@ -45,6 +45,7 @@ type sizes struct{ sends, failing, conflicts int }
 
 // Run is the driver entry point.
 func Run(o *drv.Out) {
+	execdrv.Property = "C03"
 	defer runtime.GOMAXPROCS(runtime.GOMAXPROCS(0))
 	nCases, nHeights := 6, 5
 	bigSends := []int{300, 40, 0, 1, 700}
@@ -52,14 +53,15 @@ func Run(o *drv.Out) {
 		nCases, nHeights = 14, 8
 		bigSends = []int{300, 40, 0, 1, 700, 1500, 3, 16, 120}
 	}
-	corpusOversize(o) // corpus first
-	corpusFullBlock(o)
-	corpusLastCertVersion(o)
-	corpusParamCache(o)
-	corpusSlashReexecuted(o)
-	corpusCheckpointHeight(o)
+	execdrv.Guard(o, func() { corpusOversize(o) }) // corpus first
+	execdrv.Guard(o, func() { corpusFullBlock(o) })
+	execdrv.Guard(o, func() { corpusLastCertVersion(o) })
+	execdrv.Guard(o, func() { corpusParamCache(o) })
+	execdrv.Guard(o, func() { corpusSlashReexecuted(o) })
+	execdrv.Guard(o, func() { corpusCheckpointHeight(o) })
+	execdrv.Guard(o, func() { corpusRestartPatterns(o) })
 	for ci := 0; ci < nCases; ci++ {
-		runCase(o, ci, nHeights, bigSends)
+		execdrv.Guard(o, func() { runCase(o, ci, nHeights, bigSends) })
 	}
 	o.Extra["c03_paths"] = []string{"propose", "validate", "commit-cached", "commit-replay", "sync", "restart+replay", "validate+restart+replay", "speculation(validate other, interrupt / produce own)+validate+commit"}
 	o.Extra["c03_gomaxprocs"] = []int{1, 2, 3, 8, 16}
@@ -130,11 +132,15 @@ func corpusOversize(o *drv.Out) {
 		return
 	}
 	// drop the remainder (a restart loses the mempool), then exactly capacity+1
-	c.Restart(P)
+	if !c.Restart(P) {
+		return
+	}
 	if _, ok = round(sends(capTx+1, 3, 1000), "h3-capacity+1"); !ok {
 		return
 	}
-	c.Restart(P)
+	if !c.Restart(P) {
+		return
+	}
 	round(sends(capTx, 4, 2000), "h4-capacity")
 	o.Sample(fmt.Sprintf("corpus-oversize-remainder: capacity %d sends; 200 and %d sends validate on proposer and replica, no differing keys", capTx, capTx+1))
 }
@@ -204,8 +210,8 @@ func corpusFullBlock(o *drv.Out) {
 			}
 		}
 		o.Count(fmt.Sprintf("corpus-full-block:%d-submitted:included=%d:serialized-minus-blocksize=%d", n, p.NTx, len(p.Block)-int(lib.MaxBlockHeaderSize+room)))
-		if P.MempoolCount() > 0 {
-			c.Restart(P)
+		if P.MempoolCount() > 0 && !c.Restart(P) {
+			return
 		}
 	}
 }
@@ -541,6 +547,87 @@ func corpusCheckpointHeight(o *drv.Out) {
 	o.Nontrivial(o.CurCase())
 }
 
+// corpusRestartPatterns: restarts against validator-set changes. Every block changes a validator's
+// stake (edit-stake of a rotating validator), so the validator root, the committee BeginBlock reads
+// for the previous height and the compounding rewards all depend on historical reads of the height
+// just committed. Nodes: R never restarts; T1 restarts after every commit, T2 after every 2nd, T3 after
+// every 3rd (so: "restart, exactly one block, restart", and restarts one and two blocks after the
+// change). A restarted node must come back up, rebuild its mempool proposal, apply the next committed
+// block and compute the proposer's header.
+func corpusRestartPatterns(o *drv.Out) {
+	o.Case("restart-after-validator-change")
+	rng := rand.New(rand.NewSource(54))
+	net := node.NewNetwork(15, 5, nil, 8)
+	defer net.Close()
+	c := execdrv.NewChain(o, net, rng, []int{16, 2})
+	P, R := c.NewNode("P", 0), c.NewNode("R", -1)
+	ts := []*node.Node{c.NewNode("T1", -1), c.NewNode("T2", -1), c.NewNode("T3", -1)}
+	nH := 7
+	if o.Tier == "thorough" || o.Search {
+		nH = 13
+	}
+	stakes := map[int]uint64{}
+	for hi := 0; hi < nH; hi++ {
+		h := P.Height()
+		v := 1 + hi%4
+		if stakes[v] == 0 {
+			stakes[v] = 1_000_000_000
+		}
+		stakes[v] += 1_000_000 * uint64(hi+1)
+		vk := net.ValKeys[v]
+		txs := []node.MixTx{
+			{Kind: "editstake", Bytes: net.EditStakeTx(vk, node.Addr(vk), node.Addr(vk), stakes[v], 10000, h)},
+			{Kind: "send", Bytes: net.SendTx(net.AcctKeys[hi%6], net.FreshAddr(hi), 1000, 10000, h, "")},
+		}
+		pre := P.StateDigest()
+		p, ok := c.Propose(P, txs, "produce")
+		if !ok || p.NTx != 2 {
+			o.Fail("C03:harness:restart-scenario-not-reached", fmt.Sprintf("height %d: the proposal does not hold the edit-stake and the send", h), map[string]any{"case": o.CurCase()})
+			return
+		}
+		c.Hold = true
+		okP := c.Validate(P, p)
+		resP := ""
+		if okP {
+			resP = c.Commit(P, p, false)
+		}
+		st := &step{h: h, hi: hi, p: p, pre: pre, post: P.StateDigest()}
+		o.Op(fmt.Sprintf("def %d %s %s %s %s", h, pre, p.ID, st.post, p.Obs), "def")
+		c.Release()
+		st.want = fmt.Sprintf("ok state=%s obs=%s", st.post, p.Obs)
+		check(c, st, "propose+validate+commit-cached", resP)
+		if !okP || resP != st.want {
+			return
+		}
+		check(c, st, "commit-replay(never restarted)", c.Commit(R, p, false))
+		for i, nd := range ts {
+			if c.Broken[nd] {
+				continue
+			}
+			k := i + 1
+			got := c.Commit(nd, p, false)
+			o.Count("compared")
+			if got != st.want {
+				o.Fail(fmt.Sprintf("C03:path-diverges:restart-every-%d", k),
+					fmt.Sprintf("height %d (validator %d's stake changed in this block and in the previous ones): node %s, restarted after every %d commit(s) (%d reopens so far), applies the committed block as %q; the proposer and a never-restarted node have %q", h, v, c.Names[nd], k, nd.Opens-1, got, st.want),
+					replayInfo(o, c, h, p, c.Names[nd]))
+				c.Broken[nd] = true
+				continue
+			}
+			if (hi+1)%k == 0 {
+				c.Restart(nd)
+			}
+		}
+	}
+	for _, nd := range ts {
+		if !c.Broken[nd] && !execdrv.SameDump(P.StateDump(), nd.StateDump()) {
+			o.Fail("C03:path-diverges:restart-state", "full state scans of the proposer and a restarting node differ", map[string]any{"case": o.CurCase(), "node": c.Names[nd]})
+		}
+	}
+	o.Nontrivial(o.CurCase())
+	o.Sample(fmt.Sprintf("restart-after-validator-change: %d heights with a stake change each; nodes restarting after every 1/2/3 commits agree with a node that never restarts", nH))
+}
+
 // step is one height of the chain as the proposer saw it.
 type step struct {
 	h         uint64
@@ -585,7 +672,9 @@ func runCase(o *drv.Out, ci, nHeights int, bigSends []int) {
 	U := c.NewNode("U", 2%nVal) // validate, restart (cache lost), commit
 	X := c.NewNode("X", 3%nVal) // speculation: validates other blocks / produces own junk first
 	Q := c.NewNode("Q", 1%nVal) // alternative proposer (its blocks are never committed)
-	followers := []*node.Node{V, R, S, T, U, X, Q}
+	T2 := c.NewNode("T2", -1)   // restart after every 2nd commit
+	T3 := c.NewNode("T3", -1)   // restart after every 3rd commit
+	followers := []*node.Node{V, R, S, T, T2, T3, U, X, Q}
 
 	var lastIncluded [][]byte
 	noOversize := false
@@ -630,7 +719,9 @@ func runCase(o *drv.Out, ci, nHeights int, bigSends []int) {
 					fmt.Sprintf("height %d: mempool holds %d valid transactions beyond the %d that fit; the proposer's own block is rejected by the proposer (unequal block hash) and by a replica on the same prefix (accepted=%v)", h, remainder, p.NTx, okV),
 					replayInfo(o, c, h, p, "P"))
 				// the remainder never leaves the mempool: restart the proposer (drops the mempool) and go on below capacity
-				c.Restart(P)
+				if !c.Restart(P) {
+					return
+				}
 				c.Interrupt(V)
 				noOversize = true
 				hi--
@@ -672,7 +763,7 @@ func runCase(o *drv.Out, ci, nHeights int, bigSends []int) {
 			for _, st := range steps {
 				follow(c, nd, st)
 			}
-			if !execdrv.SameDump(P.StateDump(), nd.StateDump()) {
+			if !c.Broken[nd] && !execdrv.SameDump(P.StateDump(), nd.StateDump()) {
 				o.Fail("C03:path-divergence:propose-"+c.Names[nd], "full state scans differ at the end of the chain", map[string]any{"case": o.CurCase(), "node": c.Names[nd]})
 			}
 		}
@@ -695,6 +786,9 @@ func check(c *execdrv.Chain, st *step, path, got string) {
 
 // follow executes one height on a follower node through that node's path.
 func follow(c *execdrv.Chain, nd *node.Node, st *step) {
+	if c.Broken[nd] {
+		return // its restart failed and was reported
+	}
 	p, rng := st.p, c.Rng
 	if p.VS.NumValidators != 0 {
 		p = c.Version(p, c.RandomQuorum(p.VS, 2))
@@ -722,12 +816,25 @@ func follow(c *execdrv.Chain, nd *node.Node, st *step) {
 		} else {
 			check(c, st, "sync", got)
 		}
-	case "T":
-		c.Restart(nd)
+	case "T": // restart before every commit (after every commit: k = 1)
+		if !c.Restart(nd) {
+			return
+		}
 		check(c, st, "restart+commit-replay", c.Commit(nd, p, false))
+	case "T2", "T3": // restart after every 2nd / 3rd commit
+		k := 2
+		if c.Names[nd] == "T3" {
+			k = 3
+		}
+		check(c, st, fmt.Sprintf("commit-replay+restart-every-%d", k), c.Commit(nd, p, false))
+		if (st.hi+1)%k == 0 {
+			c.Restart(nd)
+		}
 	case "U":
 		c.Validate(nd, p)
-		c.Restart(nd)
+		if !c.Restart(nd) {
+			return
+		}
 		check(c, st, "validate+restart+commit-replay", c.Commit(nd, p, false))
 	case "X": // speculation: other executions first, each discarded, then the real block
 		switch {
